@@ -83,6 +83,20 @@ pub enum Op {
     RepoMigrateBack { ca: String },
     /// The second publication server becomes unreachable / reachable again.
     RemoteDown { down: bool },
+    /// A CA `remote` is created in the SECOND krill instance (publishing at
+    /// that instance's server) as a child of this instance's CA `via`, and
+    /// a CA `ca` of this instance becomes a child of `remote`: `ca` has a
+    /// remote parent, `via` a remote child; both talk RFC 6492 through the
+    /// in-process transport.
+    RemoteChain { via: String, remote: String, ca: String,
+                  asn: String, v4: String, v6: String },
+    /// The remote parent changes the entitlement of its child.
+    RemoteChildUpdate { parent: String, child: String,
+                        asn: String, v4: String, v6: String },
+    /// The reply to the `nth` next request served through the transport
+    /// (0 = the next one) is lost: the server acts, the sender sees a
+    /// failed exchange.
+    LoseReply { nth: u64 },
 }
 
 impl Op {
@@ -123,6 +137,9 @@ impl Op {
             Op::RepoMigrate { .. } => "repo_migrate",
             Op::RepoMigrateBack { .. } => "repo_migrate_back",
             Op::RemoteDown { .. } => "remote_down",
+            Op::RemoteChain { .. } => "remote_chain",
+            Op::RemoteChildUpdate { .. } => "remote_child_update",
+            Op::LoseReply { .. } => "lose_reply",
         }
     }
 }
@@ -422,6 +439,47 @@ fn apply_inner(w: &mut World, op: &Op) -> Result<(), String> {
                 resp).map_err(|e| e.to_string())?;
             k.ca_manager().update_repo(h(ca), contact, true, &actor, &w.slow)
                 .map_err(e)
+        }
+        Op::RemoteChain { via, remote, ca, asn, v4, v6 } => {
+            w.ensure_remote();
+            let res = res(asn, v4, v6)?;
+            let r = w.remote.as_ref().unwrap();
+            r.init_ca_with_repo(remote).map_err(e)?;
+            let id_cert = r.krill.ca_manager().get_ca(&h(remote)).map_err(e)?
+                .child_request().validate().map_err(|e| e.to_string())?;
+            let presp = k.ca_manager().ca_add_child(
+                &h(via),
+                api::admin::AddChildRequest {
+                    handle: h(remote).convert(), resources: res.clone(),
+                    id_cert,
+                }, &actor, &k).map_err(e)?;
+            r.add_parent_only(remote, via, presp).map_err(e)?;
+            // the remote CA gets its certificate first (a parent cannot
+            // entitle a child to what it does not hold yet)
+            let _ = w.quiesce();
+            let r = w.remote.as_ref().unwrap();
+            w.init_ca_with_repo(ca).map_err(e)?;
+            let id_cert = k.ca_manager().get_ca(&h(ca)).map_err(e)?
+                .child_request().validate().map_err(|e| e.to_string())?;
+            let presp = r.krill.ca_manager().ca_add_child(
+                &h(remote),
+                api::admin::AddChildRequest {
+                    handle: h(ca).convert(), resources: res, id_cert,
+                }, &r.actor, &r.krill).map_err(e)?;
+            w.add_parent_only(ca, remote, presp).map_err(e)
+        }
+        Op::RemoteChildUpdate { parent, child, asn, v4, v6 } => {
+            let Some(r) = w.remote.as_ref() else {
+                return Err("no second instance".into())
+            };
+            r.update_child_resources(parent, child, res(asn, v4, v6)?).map_err(e)
+        }
+        Op::LoseReply { nth } => {
+            let at = crate::remote::SERVED.load(
+                std::sync::atomic::Ordering::SeqCst) + *nth;
+            crate::remote::LOSE_REPLY_AT.store(
+                at as i64, std::sync::atomic::Ordering::SeqCst);
+            Ok(())
         }
         Op::RemoteDown { down } => {
             crate::remote::UNREACHABLE.store(
